@@ -24,7 +24,7 @@ out = {}
 try:
     subprocess.run(['git', '-C', wt, 'apply', os.path.join(d, 'patch.diff')], check=True)
     for cid in ids:
-        env = dict(os.environ, HAIL_REPO_ROOT=wt)
+        env = dict(os.environ, HAIL_REPO_ROOT=wt, VERIF_EVIDENCE_DIR='/tmp/seeded-evidence', VERIF_SHRINK_S='10')
         p = subprocess.run(['./vcheck', cid, tier], cwd='/verif', env=env, capture_output=True, text=True)
         v = [l for l in p.stdout.splitlines() if l.startswith('VIOLATION')]
         out[cid] = {'tier': tier, 'exit': p.returncode, 'violations': [l.split('replay=')[1].split('/')[-1] for l in v]}
